@@ -96,6 +96,12 @@ pub fn run_real(c: &EmitCase) -> Result<Emitted, String> {
     if r.is_ok() && c.features.iter().any(|f| f == "regenerated_with_marker") {
         if let Ok(old) = std::fs::read_to_string(d.join("src/lib.rs")) {
             let _ = std::fs::write(d.join("src/lib.rs"), format!("//! hand-written crate documentation\n#![allow(unused)]\n// libninja: after\n{old}"));
+            // ... and one request module customised the documented way (own text, the marker, generated code below)
+            let mut reqs: Vec<std::path::PathBuf> = std::fs::read_dir(d.join("src/request")).map(|rd| rd.flatten().map(|e| e.path()).filter(|p| p.file_name().map(|n| n != "mod.rs").unwrap_or(false)).collect()).unwrap_or_default();
+            reqs.sort();
+            if let Some(f) = reqs.first() {
+                if let Ok(old) = std::fs::read_to_string(f) { let _ = std::fs::write(f, format!("// hand-written notes for this operation\n// libninja: after\n{old}")); }
+            }
             r = generate(&spec, &c.cfg, &d);
         }
     }
@@ -434,7 +440,7 @@ fn oracle_c02(rep: &mut Report, c: &EmitCase, em: &Emitted) {
         for m in &declared {
             let m0 = m.strip_prefix("r#").unwrap_or(m);
             if !seen.insert(m0.to_string()) {
-                let trig = if dir == "src/request/" && { let mut n: Vec<String> = em.hir.operations.iter().map(|o| mir_rust::sanitize_filename(&o.file_name())).collect(); n.sort(); let k = n.len(); n.dedup(); n.len() != k } { vec!["synthNameCollision".to_string()] } else { vec![] };
+                let trig = if dir == "src/request/" && crate::hirprops::documented_synth_clash(&c.doc) { vec!["synthNameCollision".to_string()] } else { vec![] };
                 rep.oracle_fail("moduleDeclaredTwice", trig, &case, &format!("{modfile}: mod {m}"));
             }
             if !em.tree.contains_key(&format!("{dir}{m0}.rs")) && !em.tree.contains_key(&format!("{dir}{m0}/mod.rs")) { rep.oracle_fail("moduleWithoutFile", vec![], &case, &format!("{modfile}: mod {m}")); }
@@ -616,15 +622,7 @@ fn oracle_c06(rep: &mut Report, c: &EmitCase, em: &Emitted) {
     let case = case_text(c);
     let n_ops = em.hir.operations.len();
     // recorded finding: names synthesised from verb and path that coincide
-    let synth_clash = {
-        let mut seen: BTreeMap<String, bool> = BTreeMap::new();
-        let mut clash = false;
-        for o in &em.hir.operations {
-            let no_id = c.doc["paths"][&o.path][&o.method].get("operationId").is_none();
-            if let Some(prev) = seen.insert(o.name.clone(), no_id) { if prev && no_id { clash = true; } }
-        }
-        clash
-    };
+    let synth_clash = crate::hirprops::documented_synth_clash(&c.doc);
     let rep_fail = |rep: &mut Report, tag: &str, detail: &str| rep.oracle_fail(tag, if synth_clash { vec!["synthNameCollision".to_string()] } else { vec![] }, &case_text(c), detail);
     let req_files: Vec<&String> = em.tree.keys().filter(|p| p.starts_with("src/request/") && p.as_str() != "src/request/mod.rs").collect();
     let ex_files: Vec<&String> = em.tree.keys().filter(|p| p.starts_with("examples/")).collect();
